@@ -13,6 +13,12 @@ import (
 )
 
 func rewriteMetadata(p string, stat *types.Stat) error {
+	// The owner comes first: chown makes the kernel drop the
+	// security.capability xattr (file capabilities), even for root.
+	if err := os.Lchown(p, int(stat.Uid), int(stat.Gid)); err != nil {
+		return errors.WithStack(err)
+	}
+
 	if len(stat.Xattrs) > 0 && os.FileMode(stat.Mode)&os.ModeSymlink == 0 {
 		// An unprivileged owner needs write permission on the inode to set
 		// user.* xattrs; a read-only entry was created with its final mode.
@@ -21,10 +27,6 @@ func rewriteMetadata(p string, stat *types.Stat) error {
 	}
 	for key, value := range stat.Xattrs {
 		sysx.LSetxattr(p, key, value, 0)
-	}
-
-	if err := os.Lchown(p, int(stat.Uid), int(stat.Gid)); err != nil {
-		return errors.WithStack(err)
 	}
 
 	if os.FileMode(stat.Mode)&os.ModeSymlink == 0 {
